@@ -6,7 +6,15 @@
 
 use crate::core::Core;
 use crate::forwarder::TcpConnector;
-use crate::{forwarder, log_utils, net_utils, tcp_forwarder, tunnel};
+use crate::http_datagram_codec::Encoder as _;
+use crate::{
+    datagram_pipe, downstream, forwarder, http_downstream, http_icmp_codec, http_udp_codec,
+    icmp_utils, log_utils, net_utils, pipe, tcp_forwarder, tunnel,
+};
+use async_trait::async_trait;
+use bytes::Bytes;
+use std::collections::VecDeque;
+use std::io;
 use std::net::{IpAddr, SocketAddr};
 
 /// Hooks consulted by production code paths under `cfg(feature = "verif")`
@@ -114,3 +122,180 @@ pub async fn tcp_forwarder_connect(core: &Core, destination: VTcpDestination) ->
         Err(e) => outcome_of_error(&e),
     }
 }
+
+// ---------------------------------------------------------------------------------------
+// scripted byte source (one `Chunk` per scripted chunk, then `Eof`)
+
+struct ChunkSource {
+    chunks: VecDeque<Bytes>,
+}
+
+#[async_trait]
+impl pipe::Source for ChunkSource {
+    fn id(&self) -> log_utils::IdChain<u64> {
+        log_utils::IdChain::empty()
+    }
+
+    async fn read(&mut self) -> io::Result<pipe::Data> {
+        Ok(match self.chunks.pop_front() {
+            Some(x) => pipe::Data::Chunk(x),
+            None => pipe::Data::Eof,
+        })
+    }
+
+    fn consume(&mut self, _size: usize) -> io::Result<()> {
+        Ok(())
+    }
+}
+
+fn chunk_source(chunks: Vec<Vec<u8>>) -> Box<dyn pipe::Source> {
+    Box::new(ChunkSource {
+        chunks: chunks.into_iter().map(Bytes::from).collect(),
+    })
+}
+
+// ---------------------------------------------------------------------------------------
+// UDP multiplexer codec (PROTOCOL.md 6.3 / 6.4)
+
+#[derive(Debug, Clone, PartialEq, Eq)]
+pub struct VUdpIn {
+    pub source: SocketAddr,
+    pub destination: SocketAddr,
+    pub app_name: Option<String>,
+    pub payload: Vec<u8>,
+}
+
+/// Decode a chunked 6.3 stream with the real `http_udp_codec::Decoder` behind the real
+/// `DatagramDecoder::read` glue; returns the datagrams produced until end of stream.
+pub async fn udp_decode_stream(chunks: Vec<Vec<u8>>) -> Vec<VUdpIn> {
+    let mut dec = http_downstream::verif_udp_decoder(chunk_source(chunks));
+    let mut out = vec![];
+    while let Ok(d) = dec.read().await {
+        out.push(VUdpIn {
+            source: d.meta.source,
+            destination: d.meta.destination,
+            app_name: d.meta.app_name,
+            payload: d.payload.to_vec(),
+        });
+    }
+    out
+}
+
+/// 6.4 encoder
+pub fn udp_encode(source: SocketAddr, destination: SocketAddr, payload: &[u8]) -> Option<Vec<u8>> {
+    http_udp_codec::Encoder::default()
+        .encode_packet(&forwarder::UdpDatagram {
+            meta: forwarder::UdpDatagramMeta {
+                source,
+                destination,
+            },
+            payload: Bytes::copy_from_slice(payload),
+        })
+        .map(|x| x.to_vec())
+}
+
+// ---------------------------------------------------------------------------------------
+// ICMP
+
+#[derive(Debug, Clone, PartialEq, Eq)]
+pub struct VIcmpRequest {
+    pub peer: IpAddr,
+    pub type_id: u8,
+    pub code: u8,
+    pub id: u16,
+    pub seq: u16,
+    pub ttl: u8,
+    pub data_len: usize,
+    /// the serialised echo the forwarder would put on the wire
+    pub wire: Vec<u8>,
+}
+
+/// 7.3 decoder behind the real `DatagramDecoder::read` glue
+pub async fn icmp_decode_stream(chunks: Vec<Vec<u8>>) -> Vec<VIcmpRequest> {
+    let mut dec = http_downstream::verif_icmp_decoder(chunk_source(chunks));
+    let mut out = vec![];
+    while let Ok(d) = dec.read().await {
+        let echo = d.message.to_echo().cloned();
+        out.push(VIcmpRequest {
+            peer: d.meta.peer,
+            type_id: d.message.type_id(),
+            code: d.message.code(),
+            id: echo.as_ref().map(|e| e.identifier).unwrap_or(0),
+            seq: echo.as_ref().map(|e| e.sequence_number).unwrap_or(0),
+            ttl: d.ttl,
+            data_len: echo.as_ref().map(|e| e.data.len()).unwrap_or(0),
+            wire: d.message.serialize().to_vec(),
+        });
+    }
+    out
+}
+
+/// `Echo::serialize` through `v4::Message::Echo` / `v6::Message::EchoRequest`
+pub fn icmp_echo_serialize(v6: bool, id: u16, seq: u16, data: &[u8]) -> Vec<u8> {
+    let echo = icmp_utils::Echo {
+        code: 0,
+        identifier: id,
+        sequence_number: seq,
+        data: Bytes::copy_from_slice(data),
+    };
+    if v6 {
+        icmp_utils::Message::V6(icmp_utils::v6::Message::EchoRequest(echo))
+    } else {
+        icmp_utils::Message::V4(icmp_utils::v4::Message::Echo(echo))
+    }
+    .serialize()
+    .to_vec()
+}
+
+fn icmp_deserialize(v6: bool, packet: &[u8]) -> Option<icmp_utils::Message> {
+    let packet = Bytes::copy_from_slice(packet);
+    if v6 {
+        icmp_utils::v6::Message::deserialize(packet)
+            .ok()
+            .map(icmp_utils::Message::V6)
+    } else {
+        icmp_utils::v4::Message::deserialize(packet)
+            .ok()
+            .map(icmp_utils::Message::V4)
+    }
+}
+
+/// canonical view of `deserialize`: `rejected` or `type code`
+pub fn icmp_deserialize_view(v6: bool, packet: &[u8]) -> Option<(u8, u8)> {
+    icmp_deserialize(v6, packet).map(|m| (m.type_id(), m.code()))
+}
+
+/// `deserialize` then `responded_echo_request`: `None` = rejected, `Some(None)` = no request
+/// designated, `Some(Some((code, id, seq, data)))`
+#[allow(clippy::type_complexity)]
+pub fn icmp_responded(v6: bool, packet: &[u8]) -> Option<Option<(u8, u16, u16, Vec<u8>)>> {
+    icmp_deserialize(v6, packet).map(|m| {
+        m.responded_echo_request()
+            .map(|e| (e.code, e.identifier, e.sequence_number, e.data.to_vec()))
+    })
+}
+
+/// 7.4 encoder applied to a received packet: `None` = rejected by `deserialize`
+pub fn icmp_encode_reply(v6: bool, peer: IpAddr, packet: &[u8]) -> Option<Option<Vec<u8>>> {
+    icmp_deserialize(v6, packet).map(|message| {
+        http_icmp_codec::Encoder::default()
+            .encode_packet(&forwarder::IcmpDatagram {
+                meta: forwarder::IcmpDatagramMeta { peer },
+                message,
+            })
+            .map(|x| x.to_vec())
+    })
+}
+
+pub fn skip_ip_header(v6: bool, packet: &[u8]) -> Option<(i32, Vec<u8>)> {
+    let packet = Bytes::copy_from_slice(packet);
+    if v6 {
+        net_utils::skip_ipv6_header(packet)
+    } else {
+        net_utils::skip_ipv4_header(packet)
+    }
+    .map(|(p, b)| (p, b.to_vec()))
+}
+
+#[allow(dead_code)]
+fn _unused(_: &dyn datagram_pipe::DuplexPipe, _: &downstream::UdpDatagramMeta) {}
